@@ -187,13 +187,28 @@ pub struct ThreadCtx<T: Payload> {
 
 impl<T: Payload> ThreadCtx<T> {
     /// The duration handed to a timed call. A deadline of `LONG_US` or more stands for "cannot expire in this
-    /// run"; for those, every other call (by thread and position) passes `Duration::MAX`, the idiom for "no limit",
-    /// whose deadline `Instant` cannot represent.
+    /// run"; those are drawn (by thread, position and the run's pattern seed) from a table of ways to say "practically
+    /// forever": 4000 s, `Duration::MAX` (the idiom for "no limit", which `Instant` cannot represent), powers of two
+    /// of seconds up to 2^63, values just above 2^64 ns, `u64::MAX` of every unit.
     fn dur(&self, us: u32) -> Duration {
-        if us >= crate::scn::LONG_US && (self.th as u32 + self.idx) % 2 == 1 {
-            Duration::MAX
-        } else {
-            Duration::from_micros(us as u64)
+        if us < crate::scn::LONG_US {
+            return Duration::from_micros(us as u64);
+        }
+        let h = crate::rng::hash_mix(crate::rng::hash_mix(self.pat, self.th as u64), self.idx as u64);
+        match h % 16 {
+            0 | 1 | 2 => Duration::from_micros(us as u64),
+            3 | 4 => Duration::MAX,
+            5 => Duration::from_secs(1 << (32 + (h >> 8) % 32)),
+            6 => Duration::from_secs(1 << 63),
+            7 => Duration::from_secs(1 << 55),
+            8 => Duration::from_nanos(u64::MAX) + Duration::from_nanos(1) + Duration::from_millis(30),
+            9 => Duration::from_secs(18_446_744_074),
+            10 => Duration::from_secs(u64::MAX),
+            11 => Duration::from_millis(u64::MAX),
+            12 => Duration::from_micros(u64::MAX),
+            13 => Duration::from_nanos(u64::MAX),
+            14 => Duration::from_secs(u32::MAX as u64 + 1 + (h >> 8) % 1000),
+            _ => Duration::new(u64::MAX / (1 + (h >> 8) % 1000), 999_999_999),
         }
     }
     pub fn new(th: u16, tag_lo: Tag, tag_hi: Tag) -> Self {
